@@ -354,3 +354,72 @@ func rangeShapePrograms() []*Program {
 	}
 	return out
 }
+
+// iteratorValueShapes: iterators that are themselves VALUES produced by generator code (a generator of generators, an
+// iterator-returning call as the operand of Yield, iterators stored and handed out later): every call of a generator
+// function must give a new, independent iterator, also when the call is the whole operand of a Yield in a loop.
+var iteratorValueShapes = []shape{
+	{name: "generator-of-generators-held-and-interleaved", tags: []string{"eta-shape"}, decls: `
+$GEN{$NCount(n int)}{int}{
+	for i := 0; i < n; i++ {
+		tr.Ev(1, n, i)
+		$YIELD{i}
+	}
+	$RET
+}
+
+$GEN{$NMany(k int)}{$ITER{int}}{
+	for i := 0; i < k; i++ {
+		$YIELD{$NCount(3)}
+	}
+	$YIELD{$NCount(2)}
+	$RET
+}
+
+$GEN{$NFirst(k int)}{$ITER{int}}{
+	$YIELD{$NCount(3)}
+	$YIELD{$NCount(3)}
+	$RET
+}
+
+func $NC(a int) (res int) {
+	var its []$ITER{int}
+	for it := range $RANGE{$NMany(2 + a%2)} {
+		its = append(its, it)
+	}
+	// round robin over all collected iterators
+	for alive := true; alive; {
+		alive = false
+		for i, it := range its {
+			if it.MoveNext() {
+				alive = true
+				res = res*3 + it.Current() + i
+				tr.Ev(2, i, it.Current())
+			}
+		}
+	}
+	return
+}
+
+func $ND(a int) (res int) {
+	var its []$ITER{int}
+	for it := range $RANGE{$NFirst(a)} {
+		its = append(its, it)
+	}
+	for its[0].MoveNext() {
+		res += 10
+	}
+	for its[1].MoveNext() {
+		res++
+	}
+	return
+}`, entries: []*Entry{callEntry("$NC", 1, nil), callEntry("$ND", 1, [][]int{{0}})}},
+}
+
+func iteratorValuePrograms() []*Program {
+	var out []*Program
+	for i, sh := range iteratorValueShapes {
+		out = append(out, mkShapeProgram("V"+itoa(100+i), sh))
+	}
+	return out
+}
